@@ -259,6 +259,15 @@ func runCodec(ctx *core.Ctx, cases []*ProgCase, langs []string) []string {
 		}(t, cells)
 	}
 	wg.Wait()
+	// a toolchain or driver process that hit its wall-clock limit says nothing durable about the emitted
+	// code (the machine may simply be loaded): such a cell is unobservable, never a verdict
+	for _, pc := range cases {
+		for _, cc := range pc.Cells {
+			if cc.T != nil && cc.T.Stage != "" && strings.Contains(cc.T.BuildLog, "timeout after") {
+				cc.T.Stage = "timeout"
+			}
+		}
+	}
 	out := append([]string(nil), langs...)
 	for _, l := range langs {
 		if extra[l+SeqSuffix] {
